@@ -972,3 +972,10 @@ def x3(cx: Cx, ob: Ob) -> None:
     from ..rules import cached_derivations
 
     cached_derivations(cx, ob)
+
+
+@obligation("C13-X5", "no memoised factory on the loading path hands the same mutable object (a Record, a table) to several converters (shared with C10-D5): 'each listed pair' of the data given NOW - a record shared with a converter loaded earlier carries whatever was merged into it there", floor=1)
+def x5(cx: Cx, ob: Ob) -> None:
+    from .c10 import d5 as memoised_factories
+
+    memoised_factories(cx, ob)
